@@ -1,6 +1,7 @@
 package e2
 
 import (
+	"encoding/json"
 	"sort"
 	"syscall"
 	"bytes"
@@ -25,6 +26,48 @@ type PathFunc func(t *testing.T, i int, rep *vk.Report)
 // The parent hands out index ranges; a child writes the index it is about to run to a progress
 // file, so a crash is attributed to exactly one path and exploration resumes after it.
 func RunPaths(t *testing.T, property, phase, testName string, n int, budget time.Duration, run PathFunc, describe func(i int) any, finish func(rep *vk.Report)) {
+	if rf := os.Getenv("VERIF_REPLAY"); rf != "" {
+		// replay: re-execute exactly the recorded path five times, no search
+		raw, err := os.ReadFile(rf)
+		if err != nil {
+			t.Fatal(err)
+		}
+		var body struct {
+			Replay json.RawMessage `json:"replay"`
+		}
+		json.Unmarshal(raw, &body)
+		var want any
+		json.Unmarshal(body.Replay, &want)
+		wantS, _ := json.Marshal(want)
+		rep := vk.NewReport(property, phase, "E2-brokermc")
+		found := false
+		for i := 0; i < n; i++ {
+			b, _ := json.Marshal(describe(i))
+			var norm any
+			json.Unmarshal(b, &norm)
+			nb, _ := json.Marshal(norm)
+			if string(nb) != string(wantS) {
+				continue
+			}
+			found = true
+			hits := 0
+			for k := 0; k < 5; k++ {
+				before := rep.ViolationsTotal
+				run(t, i, rep)
+				if rep.ViolationsTotal > before {
+					hits++
+				}
+			}
+			fmt.Printf("replayed path %d five times: violation reproduced %d/5\n", i, hits)
+			rep.Extra["replay_reproduced_of_5"] = hits
+			rep.Paths, rep.Evaluations, rep.States, rep.Transitions = 5, 5, 1, 5
+		}
+		if !found {
+			rep.HarnessError("the replay file describes no path of this phase at the current tier")
+		}
+		rep.Write()
+		return
+	}
 	if only := os.Getenv("VERIF_ONLY"); only != "" {
 		// debugging / replay aid: run the paths whose description contains the given text, in-process
 		rep := vk.NewReport(property, phase, "E2-brokermc")
